@@ -45,7 +45,7 @@ def litSpec (s t : Str) (matched : Bool) : Bool := matched == decide (t = s)
 def phName (P : Prims) (s : Str) : Option Str :=
   match parsePlaceholder P s with
   | .ok p => some p.fn.name
-  | _ => none
+  | .error _ => none
 
 /-- alias names a text refers to (well-formed placeholders whose matcher is a defined alias). -/
 def refsOfPieces (P : Prims) (aliases : List (Str × Str)) : List Piece → List Str
